@@ -49,6 +49,8 @@ def wf_ops(cap, st, sizes, nmax_readers):
     ops = []
     if pending:
         ops += [("wcommit", (False, nr, mapped)), ("wabort", (False, nr, mapped))]
+    else:
+        ops += [("wcommit", (False, nr, mapped))]
     if True:
         for n in sizes:
             ops.append(("wmap %d" % n, None))  # outcome decides pending
@@ -95,6 +97,7 @@ def gen_exhaustive(cap, depth, max_readers, with_accept):
             # mapping again without ending the write (what source.c does after a failed camera_get_frame)
             cands += [("wmap %d" % n, True, nr, mapped) for n in sizes[:1] + sizes[-1:]]
         else:
+            cands.append(("wcommit", False, nr, mapped))   # an unmap with nothing mapped (after an abort, a commit, a refused commit)
             for n in sizes:
                 cands.append(("wmap %d" % n, True, nr, mapped))
         if nr < max_readers:
@@ -132,6 +135,8 @@ def gen_random(rng, cap, nops, nreaders_max, frame_mode=False):
         if r < 0.42:
             if pending and rng.random() < 0.93:
                 ops.append("wcommit" if rng.random() < 0.85 else "wabort"); pending = False
+            elif not pending and rng.random() < 0.06:
+                ops.append("wcommit")
             else:
                 n = rng.choice(pool) if rng.random() < 0.7 else rng.randrange(1, max(2, cap))
                 if frame_mode:
